@@ -411,9 +411,11 @@ fn json_oracle(c: &JsonCase, st: &mut Stats) -> Result<(), String> {
   st.evals(1);
   let got = no_panic(|| serde_json::from_str::<Evaluation>(&text)).map_err(|p| format!("JSON decode panicked: {p}"))?;
   let well_formed = c.len == 32 && (c.broken == 0 || c.broken == 3 && !BASE64_STANDARD.encode(&payload).contains('A'));
+  // a complete 32-number array in place of the base64 string: accepting it is a choice, not a partial value
+  let either = c.len == 32 && c.broken == 5;
   match got {
     Ok(ev) => {
-      if !well_formed {
+      if !well_formed && !either {
         return Err(format!("malformed evaluation text accepted: {text}"));
       }
       if ev.output.as_bytes()[..] != payload[..] || ev.proof.is_some() {
@@ -432,11 +434,100 @@ fn json_oracle(c: &JsonCase, st: &mut Stats) -> Result<(), String> {
   Ok(())
 }
 
+#[derive(Clone, Debug, Serialize, Deserialize)]
+pub struct PointJsonCase {
+  /// number of array elements
+  pub len: u8,
+  pub fill: u64,
+  /// 0 = array of in-range numbers, 1 = one element out of range (256), 2 = one element negative,
+  /// 3 = one element a string, 4 = base64 string of `len` bytes, 5 = nested in an array-of-points request body
+  pub form: u8,
+  pub at: u16,
+}
+
+fn point_json_strat(_t: Tier) -> BoxedStrategy<PointJsonCase> {
+  (prop_oneof![3 => Just(32u8), 2 => Just(31u8), 1 => Just(33u8), 1 => Just(0u8), 1 => Just(1u8), 2 => 0u8..70], any::<u64>(), 0u8..6, any::<u16>())
+    .prop_map(|(len, fill, form, at)| PointJsonCase { len, fill, form, at })
+    .boxed()
+}
+
+/// A point in JSON is its 32 bytes.  A text that does not hold exactly 32 in-range bytes must not
+/// come back as a point (short arrays would be partially initialised values).
+fn point_json_oracle(c: &PointJsonCase, st: &mut Stats) -> Result<(), String> {
+  use base64::{engine::Engine as _, prelude::BASE64_STANDARD};
+  let payload = expand(c.fill, c.len as usize);
+  let mut items: Vec<String> = payload.iter().map(|x| x.to_string()).collect();
+  let pos = if items.is_empty() { 0 } else { idx(c.at, items.len()) };
+  let mut damaged = false;
+  match c.form {
+    1 if !items.is_empty() => {
+      items[pos] = "256".into();
+      damaged = true;
+    }
+    2 if !items.is_empty() => {
+      items[pos] = "-1".into();
+      damaged = true;
+    }
+    3 if !items.is_empty() => {
+      items[pos] = "\"7\"".into();
+      damaged = true;
+    }
+    _ => {}
+  }
+  let array = format!("[{}]", items.join(","));
+  let text = if c.form == 4 { format!("\"{}\"", BASE64_STANDARD.encode(&payload)) } else { array };
+  st.evals(1);
+  let got: Option<Point> = if c.form == 5 {
+    // a request body as the example server reads it: a list of points
+    let body = format!("[{text}]");
+    match no_panic(|| serde_json::from_str::<Vec<Point>>(&body)).map_err(|p| format!("JSON decode panicked: {p}"))? {
+      Ok(mut v) if v.len() == 1 => v.pop(),
+      Ok(v) => return Err(format!("a list holding one point text decoded to {} points: {body}", v.len())),
+      Err(_) => None,
+    }
+  } else {
+    no_panic(|| serde_json::from_str::<Point>(&text)).map_err(|p| format!("JSON decode panicked: {p}"))?.ok()
+  };
+  let complete = c.len == 32 && !damaged;
+  match (&got, c.form) {
+    (Some(p), 4) => {
+      // a base64 string instead of the array: accepting it is a choice; a partial value is not
+      if c.len != 32 || p.as_bytes()[..] != payload[..] {
+        return Err(format!("point text {text} was accepted and does not hold exactly the 32 bytes it spells"));
+      }
+      st.class("point-json:string-form-accepted");
+    }
+    (None, 4) => st.class("point-json:string-form-refused"),
+    (Some(p), _) => {
+      if c.len < 32 || damaged {
+        return Err(format!(
+          "point text with {} elements{} was accepted as the point {}: a value that the text does not spell out",
+          c.len,
+          if damaged { " (one of them not a byte)" } else { "" },
+          hex::encode(p.as_bytes())
+        ));
+      }
+      if p.as_bytes()[..] != payload[..32] {
+        return Err(format!("point decoded from {text} does not hold the bytes of the text"));
+      }
+      st.class(if c.len == 32 { "point-json:accepted" } else { "point-json:long-array-accepted" });
+    }
+    (None, _) => {
+      if complete {
+        return Err(format!("well-formed point text refused: {text}"));
+      }
+      st.class("point-json:refused");
+      st.nontrivial(&text);
+    }
+  }
+  Ok(())
+}
+
 pub fn property() -> Property {
   Property {
     id: "C15",
     level: "exploration",
-    rule: "round trips: public keys for tag-set sizes 0..256 (all 257 sizes enumerated in thorough, a spread in quick) with proofs / evaluations / points from generated requests: restored == original, re-serialisation identical, documented layout (32-byte base, u64 count, sorted (u8, point) entries; proof = c || s), and all 12 combinations of {original, restored} key x evaluation x point verify. bytes: every strict prefix of valid key and proof encodings is refused; lengths limit-2..limit+2 for both limits; mutated keys (count field values, undecodable points, tags, appended bytes), unsorted and repeated-tag entry lists, arbitrary 64-byte proofs, raw strings - an accepted value must equal what an independent reader of the documented form extracts from the same bytes (a repeated tag takes its last entry), bytes that do not hold a complete value must be refused. JSON: 31/32/33-byte and other payloads, broken base64, wrong types. Non-trivial: tag-set size >= 2, a string within 2 bytes of a limit, a truncation or any refused string.",
+    rule: "round trips: public keys for tag-set sizes 0..256 (all 257 sizes enumerated in thorough, a spread in quick) with proofs / evaluations / points from generated requests: restored == original, re-serialisation identical, documented layout (32-byte base, u64 count, sorted (u8, point) entries; proof = c || s), and all 12 combinations of {original, restored} key x evaluation x point verify. bytes: every strict prefix of valid key and proof encodings is refused; lengths limit-2..limit+2 for both limits; mutated keys (count field values, undecodable points, tags, appended bytes), unsorted and repeated-tag entry lists, arbitrary 64-byte proofs, raw strings - an accepted value must equal what an independent reader of the documented form extracts from the same bytes (a repeated tag takes its last entry), bytes that do not hold a complete value must be refused. JSON: 31/32/33-byte and other payloads, broken base64, wrong types for evaluations; point texts as arrays of 0..70 numbers (one possibly not a byte), as strings, alone and inside a list of points - only a text that spells exactly 32 bytes may come back as a point. Non-trivial: tag-set size >= 2, a string within 2 bytes of a limit, a truncation or any refused string.",
     assumptions: vec![
       "bincode's tolerance of trailing bytes after a complete value is not fixed by the property and is not asserted",
       "Evaluation is deserialised with serde_json::from_str / from_slice, as every caller in the repository does (the base64 adapter borrows the string)",
@@ -463,6 +554,7 @@ pub fn property() -> Property {
       ),
       prop_sub("bytes", 4000, 100_000, bytes_strat, bytes_oracle),
       prop_sub("json", 4000, 60_000, json_strat, json_oracle),
+      prop_sub("point_json", 4000, 60_000, point_json_strat, point_json_oracle),
       crate::fuzzentry::fuzz_sub("fuzzbytes_ppoprf", "ppoprf", "C15", 4000, 80000),
       crate::fuzzentry::artefact_sub("artefact_ppoprf", "ppoprf", "C15"),
     ],
